@@ -20,6 +20,7 @@ From Coq Require Import Reals Lra List Bool Arith Lia.
 Set Warnings "-ambiguous-paths,-notation-overridden,-redundant-canonical-projection".
 From Coquelicot Require Import Coquelicot.
 From WG Require Import Lib.NumpySem Lib.BoltzLin.
+From WG Require Lib.Lagrange Lib.Spectral.
 From GenC12 Require Import Boltz.
 Import ListNotations.
 Local Open Scope R_scope.
@@ -211,6 +212,32 @@ Proof.
 Qed.
 End Physics.
 
+(** the hypotheses of [source_is_minus_liouville_feq] are jointly satisfiable (constant
+    profiles T = m^2 = 1, v = 3/5, a boson at p = 0 in [env_example]) *)
+Example physics_hypotheses_satisfiable :
+  let e := env_example in
+  let T := fun _ : R => 1 in let v := fun _ : R => 3 / 5 in let m2 := fun _ : R => 1 in
+  is_derive T 0 0 /\ is_derive v 0 0 /\ is_derive m2 0 0 /\
+  T 0 = Tprof e 1 /\ v 0 = vprof e 1 /\ m2 0 = msqprof e 0 1 /\
+  T 0 <> 0 /\ 0 < 1 - v 0 ^ 2 /\ 0 < m2 0 + pzv e 0 ^ 2 + ppv e 0 ^ 2 /\
+  stat e 0 * stat e 0 = 1 /\
+  ~ maxexp e < xarg e 0 T v m2 0 (pzv e 0) /\
+  exp (xarg e 0 T v m2 0 (pzv e 0)) - stat e 0 <> 0 /\
+  dpzdrz e 0 <> 0 /\ 0 < 1 - vwall e ^ 2.
+Proof.
+  cbv zeta.
+  assert (X : xarg env_example 0 (fun _ => 1) (fun _ => 3 / 5) (fun _ => 1) 0 (pzv env_example 0) = 5 / 4).
+  { unfold xarg, Epl, env_example; cbn [ppv pzv].
+    replace (1 - (3 / 5) ^ 2) with ((4 / 5) * (4 / 5)) by field.
+    rewrite sqrt_square by lra.
+    replace (1 + 0 ^ 2 + 0 ^ 2) with (1 * 1) by ring. rewrite sqrt_square by lra. field. }
+  rewrite X.
+  unfold env_example; cbn [Tprof vprof msqprof pzv ppv stat maxexp dpzdrz vwall].
+  do 3 (split; [auto_derive; [exact I|ring]|]).
+  repeat split; try lra.
+  pose proof (exp_ineq1 (5 / 4)). lra.
+Qed.
+
 (** the prefactors do not look at the collision array *)
 Lemma K_with_coll c e :
   (forall a al be ga b, K1 (with_coll c e) a al be ga b = K1 e a al be ga b) /\
@@ -265,29 +292,178 @@ Example left_inverse_satisfiable :
 Proof. intros r c Hr Hc. assert (r = 0%nat) by lia. assert (c = 0%nat) by lia. subst. cbn. unfold kron; cbn. ring. Qed.
 
 (** ** (2') AST facts: in both derivative modes the three derivatives are derivatives of the
-    temperature, velocity and m^2 profiles respectively *)
+    temperature, velocity and m^2 profiles respectively, taken ALONG CHI (spectral:
+    Polynomial(..).derivative(k) with direction[k] = "z"; finite differences: the findiff matrix
+    built on chiFull, not the rz one) and cut [1:-1] on the position axis only *)
 Lemma derivative_sources_lem :
   forall m t, exists f, In f deriv_facts /\ f_mode f = m /\ f_target f = t /\
-                        f_profiles f = [profile_of t] /\ f_deriv f = true.
+                        f_profiles f = [profile_of t] /\ f_deriv f = true /\ f_along_chi f = true.
 Proof. apply facts_ok_sound. vm_compute. reflexivity. Qed.
 
 (** ** (4) the finite-difference cross-check works on a deep copy: whatever it does to the
     copy (including the in-place basis change of the copy's CollisionArray), the solver owned
     by the EOM and everything a later spectral solve depends on are unchanged *)
-Lemma fd_crosscheck_lem fresh s h :
-  fresh <> s_coll s ->
-  let w := run fd_copy_kind changeBasis_inplace fd_ops fresh s h in
-  owner w = s /\ observable (owner w) (hp w) = observable s h.
+Lemma fd_crosscheck_lem junk fc fb s h :
+  fc <> s_coll s -> fb <> s_bg s ->
+  let w := run fd_copy_kind deepcopy_structural changeBasis_inplace junk fd_ops fc fb s h in
+  owner w = s /\ observable (owner w) (hp w) = observable s h /\
+  observable (cpy w) (hp w)
+  = fold_left (obs_step changeBasis_inplace) (map snd fd_ops) (observable s h).
 Proof. apply fd_safe_sound. vm_compute. reflexivity. Qed.
+
+(** what the copy is, concretely: the owner's problem (same position basis, same background in
+    the same frames) in finite-difference mode with Cardinal momentum basis and Cardinal
+    collision data *)
+Lemma fd_copy_is_fd_solver junk fc fb s h :
+  fc <> s_coll s -> fb <> s_bg s ->
+  let w := run fd_copy_kind deepcopy_structural changeBasis_inplace junk fd_ops fc fb s h in
+  observable (cpy w) (hp w)
+  = (FiniteDiff, s_basisM s, Cardinal, Cardinal, h_bg h (s_bg s)).
+Proof.
+  intros H1 H2. destruct (fd_crosscheck_lem junk fc fb s h H1 H2) as [_ [_ E]].
+  cbv zeta. rewrite E. vm_compute. reflexivity.
+Qed.
 
 (** ** (5) setBackground stores (and boosts) a copy: the caller's background object is
     unobservably changed, the stored one is in the plasma frame *)
-Lemma set_background_lem f1 f2 caller h :
+Lemma set_background_lem junk f1 f2 caller h :
   f1 <> bg_vel caller -> f2 <> bg_vel caller ->
-  let '(c', s', h') := set_background bg_copy_kind bg_boost_target bg_boost_rebinds f1 f2 caller h in
+  let '(c', s', h') := set_background bg_copy_kind deepcopy_structural junk bg_boost_target
+                                      bg_boost_rebinds f1 f2 caller h in
   bg_observable c' h' = bg_observable caller h /\
   bg_observable s' h' = (PlasmaFrame, PlasmaFrame).
 Proof. apply bg_safe_sound. vm_compute. reflexivity. Qed.
+
+(** ** (1'') the wall-frame Lorentz factor: gammaWall^2 (1 - vw^2) = 1, and the coefficient of
+    d/dchi in the Liouville operator is dchi/dxi * gamma_w (pz - vw E) with E the on-shell energy *)
+Lemma gammaWall_lem e : 0 < 1 - vwall e ^ 2 ->
+  b_gammaWall e * b_gammaWall e * (1 - vwall e ^ 2) = 1 /\ 0 < b_gammaWall e.
+Proof.
+  intros H. unfold b_gammaWall, b_velocityWall.
+  assert (Hs : 0 < sqrt (1 - vwall e ^ 2)) by (apply sqrt_lt_R0; assumption).
+  split.
+  - replace (1 - vwall e ^ 2) with (sqrt (1 - vwall e ^ 2) * sqrt (1 - vwall e ^ 2)) at 3
+      by (apply sqrt_sqrt; lra).
+    field. lra.
+  - apply Rdiv_lt_0_compat; lra.
+Qed.
+Lemma K1_explicit_lem e a al be ga b :
+  K1 e a al be ga b
+  = kron a b * (1 / dxidchi e al *
+      (1 / sqrt (1 - vwall e ^ 2) *
+       (pzv e be - vwall e * sqrt (msqprof e a (S al) + pzv e be ^ 2 + ppv e ga ^ 2)))).
+Proof.
+  unfold K1, b_dchidxi, b_dxidchi, b_momentumWall, b_gammaWall, b_velocityWall, b_energy,
+    b_msq, b_msqFull, b_pz', b_pz, b_pp', b_pp. unfold Rdiv. ring.
+Qed.
+Lemma K2_explicit_lem e dM a al be b :
+  K2 e dM a al be b
+  = kron a b * (1 / dxidchi e al * (1 / dpzdrz e be) * (1 / sqrt (1 - vwall e ^ 2) / 2) * dM a al).
+Proof. unfold K2, b_dchidxi, b_dxidchi, b_drzdpz, b_dpzdrz, b_gammaWall, b_velocityWall. unfold Rdiv. ring. Qed.
+
+(** ** (6) AST facts: solveBoltzmannEquations is build -> np.linalg.solve(operator, source) in
+    double precision -> C-order reshape to the axes buildLinearEquations flattened; in getDeltas,
+    checkLinearization and estimateTruncationError every use of deltaF goes through a Polynomial
+    in the solver's bases converted to one fixed basis, or multiplies an array returned by
+    buildLinearEquations (which carries the position intertwiner), and each method converts *)
+Lemma solve_facts_lem : solve_ok solve_steps solve_shape build_flat = true.
+Proof. vm_compute. reflexivity. Qed.
+Lemma deltaF_uses_lem :
+  duses_ok deltaF_uses = true /\
+  has_poly MgetDeltas deltaF_uses = true /\ has_poly McheckLinearization deltaF_uses = true /\
+  has_poly MestimateTruncationError deltaF_uses = true.
+Proof. vm_compute. repeat split; reflexivity. Qed.
+
+(** ** (3') BASIS INDEPENDENCE of the solution, composed for the GENERATED operator.
+    Index set U4 P m n = (particle, chi, rz, rp).  Ac = operator assembled in the cardinal basis,
+    Ab = operator assembled with basis matrices X (chi), Y (rz), Z (rp); the right-hand side is
+    the SAME source (source_k takes no basis argument).  If Ac has a left inverse, x solves the
+    cardinal system and y the other one, then  x = (X (x) Y (x) Z) y  at every index: y are the
+    coefficients, in the new basis, of the function whose grid values are x; and every linear
+    functional of the grid values agrees.  (Hypotheses kept: the three per-factor facts built
+    into Ab, see operator_factorisation_partial.) *)
+Section BasisIndependence.
+Variable e : env.
+Variables (dM : nat -> nat -> R) (dT dv : nat -> R) (Dc DcZ X Y Z : nat -> nat -> R).
+Variables P m n : nat.
+Let eb := with_coll (fun a be ga b => tr2 n (coll e a be ga b) Y Z) e.
+Definition Acard (r c : idx) : R :=
+  operator_k e dM Dc DcZ kron kron kron (p1 r) (p2 r) (p3 r) (p4 r) (p1 c) (p2 c) (p3 c) (p4 c).
+Definition Abasis (r c : idx) : R :=
+  operator_k eb dM (mm m Dc X) (mm n DcZ Y) X Z Y (p1 r) (p2 r) (p3 r) (p4 r) (p1 c) (p2 c) (p3 c) (p4 c).
+Definition Tbasis (c' c : idx) : R :=
+  kron (p1 c') (p1 c) * (X (p2 c') (p2 c) * Y (p3 c') (p3 c) * Z (p4 c') (p4 c)).
+Definition src (r : idx) : R := source_k e dM dT dv (p1 r) (p2 r) (p3 r) (p4 r).
+
+Lemma Abasis_factor r c : In r (U4 P m n) -> In c (U4 P m n) ->
+  Abasis r c = lmm (U4 P m n) Acard Tbasis r c.
+Proof.
+  intros Hr Hc. apply in_U4 in Hr as (Hr1 & Hr2 & Hr3 & Hr4). apply in_U4 in Hc as (Hc1 & Hc2 & Hc3 & Hc4).
+  unfold lmm. rewrite lsum_U4. unfold Acard, Tbasis, Abasis, p1, p2, p3, p4; cbn [fst snd].
+  destruct r as [[[a al] be] ga], c as [[[b i] j] k]; cbn [fst snd] in *.
+  rewrite (rsum_ext P _ (fun b' => kron b b' *
+    rsum3 m n (fun i' j' k' => operator_k e dM Dc DcZ kron kron kron a al be ga b' i' j' k'
+                               * (X i' i * Y j' j * Z k' k)))).
+  2:{ intros b' _. unfold rsum3. rewrite <- rsum_scal. apply rsum_ext; intros.
+      rewrite <- rsum_scal. apply rsum_ext; intros. rewrite <- rsum_scal. apply rsum_ext; intros.
+      rewrite (kron_sym b' b). ring. }
+  rewrite rsum_kron by assumption.
+  symmetry. apply operator_factorisation_lem; assumption.
+Qed.
+
+Lemma basis_independence_lem (Binv : idx -> idx -> R) (x y : idx -> R) :
+  (forall r c, In r (U4 P m n) -> In c (U4 P m n) ->
+     lsum (U4 P m n) (fun t => Binv r t * Acard t c) = dl4 r c) ->
+  (forall r, In r (U4 P m n) -> lmv (U4 P m n) Acard x r = src r) ->
+  (forall r, In r (U4 P m n) -> lmv (U4 P m n) Abasis y r = src r) ->
+  (forall r, In r (U4 P m n) -> x r = lmv (U4 P m n) Tbasis y r) /\
+  (forall w, lsum (U4 P m n) (fun r => w r * x r)
+             = lsum (U4 P m n) (fun r => w r * lmv (U4 P m n) Tbasis y r)).
+Proof.
+  intros HB Hx Hy. split.
+  - apply (l_basis_change (U4 P m n) dl4 (dl4_sum P m n) Acard Binv HB Abasis Tbasis src x y);
+      try assumption. apply Abasis_factor.
+  - intros w.
+    apply (l_same_functionals (U4 P m n) dl4 (dl4_sum P m n) Acard Binv HB Abasis Tbasis src x y w);
+      try assumption. apply Abasis_factor.
+Qed.
+End BasisIndependence.
+
+(** the hypotheses are jointly satisfiable BY THE GENERATED OPERATOR, for every size: in the
+    environment with all leaves 1, delta collision data, no Liouville term (zero derivative
+    matrices, zero dm^2/dchi) the operator is the identity on U4 P m n, its own left inverse *)
+Example operator_left_inverse_satisfiable (P m n : nat) :
+  let e := with_coll (fun a be ga b j k => kron a b * (kron be j * kron ga k)) env_ones in
+  let z2 := fun _ _ : nat => 0 in
+  (forall r c, Acard e z2 z2 z2 r c = dl4 r c) /\
+  (forall r c, In r (U4 P m n) -> In c (U4 P m n) ->
+     lsum (U4 P m n) (fun t => dl4 r t * Acard e z2 z2 z2 t c) = dl4 r c).
+Proof.
+  intros e z2.
+  assert (E : forall r c, Acard e z2 z2 z2 r c = dl4 r c).
+  { intros r c. unfold Acard. rewrite operator_is_opform. unfold opform, K1, K2, K3, z2, dl4, e.
+    autorewrite with with_coll_db. unfold env_ones; cbn [cmult Tprof]. ring. }
+  split; [exact E|]. intros r c Hr Hc. rewrite dl4_sum by assumption. apply E.
+Qed.
+
+(** ** (7) a constant profile has zero derivative.  Spectral mode: C16's model of
+    Polynomial._cardinalDeriv (Lib/Spectral.v, tied to polynomial.py by the C16 check) applied to
+    the grid values of a constant gives 0 at EVERY point of the complete grid; finite
+    differences: any matrix whose rows sum to zero (findiff weights: validated) does. *)
+Lemma constant_profile_spectral_lem (grid : list R) (c : R) :
+  NoDup grid -> grid <> [] ->
+  Lagrange.omatvec Lagrange.ROps
+    (Spectral.cardinalDeriv Lagrange.ROps Spectral.Dz true grid) (map (fun _ => c) grid)
+  = map (fun _ => 0) grid.
+Proof.
+  intros Hnd Hne.
+  apply (Spectral.cardinalDeriv_exact_R Spectral.Dz true grid (fun _ => c) (fun _ => 0)).
+  - exact Hnd.
+  - apply (Lagrange.is_poly_mono 1); [destruct grid; [contradiction|cbn; lia]|].
+    apply Lagrange.is_poly_const.
+  - intros g Hg Hn. exfalso. apply Hn. exact Hg.
+  - intros x. apply derivable_pt_lim_const.
+Qed.
 
 (* ---------------------------------------------------------------------------------- *)
 Theorem source_linear : forall e dM dT dv dM' dT' dv' c a al be ga,
@@ -362,20 +538,84 @@ Print Assumptions homogeneous_background_no_deviation.
 
 Theorem derivative_sources :
   forall m t, exists f, In f deriv_facts /\ f_mode f = m /\ f_target f = t /\
-                        f_profiles f = [profile_of t] /\ f_deriv f = true.
+                        f_profiles f = [profile_of t] /\ f_deriv f = true /\ f_along_chi f = true.
 Proof. exact derivative_sources_lem. Qed.
 Print Assumptions derivative_sources.
 
-Theorem fd_crosscheck_leaves_solver_unchanged : forall fresh s h,
-  fresh <> s_coll s ->
-  let w := run fd_copy_kind changeBasis_inplace fd_ops fresh s h in
-  owner w = s /\ observable (owner w) (hp w) = observable s h.
+Theorem fd_crosscheck_leaves_solver_unchanged : forall junk fc fb s h,
+  fc <> s_coll s -> fb <> s_bg s ->
+  let w := run fd_copy_kind deepcopy_structural changeBasis_inplace junk fd_ops fc fb s h in
+  owner w = s /\ observable (owner w) (hp w) = observable s h /\
+  observable (cpy w) (hp w)
+  = fold_left (obs_step changeBasis_inplace) (map snd fd_ops) (observable s h).
 Proof. exact fd_crosscheck_lem. Qed.
 Print Assumptions fd_crosscheck_leaves_solver_unchanged.
 
-Theorem set_background_works_on_a_copy : forall f1 f2 caller h,
+Theorem fd_crosscheck_copy_is_the_fd_solver_of_the_same_problem : forall junk fc fb s h,
+  fc <> s_coll s -> fb <> s_bg s ->
+  let w := run fd_copy_kind deepcopy_structural changeBasis_inplace junk fd_ops fc fb s h in
+  observable (cpy w) (hp w)
+  = (FiniteDiff, s_basisM s, Cardinal, Cardinal, h_bg h (s_bg s)).
+Proof. exact fd_copy_is_fd_solver. Qed.
+Print Assumptions fd_crosscheck_copy_is_the_fd_solver_of_the_same_problem.
+
+Theorem gammaWall_is_lorentz : forall e, 0 < 1 - vwall e ^ 2 ->
+  b_gammaWall e * b_gammaWall e * (1 - vwall e ^ 2) = 1 /\ 0 < b_gammaWall e.
+Proof. exact gammaWall_lem. Qed.
+Print Assumptions gammaWall_is_lorentz.
+
+Theorem liouville_coefficients_explicit : forall e dM a al be ga b,
+  K1 e a al be ga b
+  = kron a b * (1 / dxidchi e al *
+      (1 / sqrt (1 - vwall e ^ 2) *
+       (pzv e be - vwall e * sqrt (msqprof e a (S al) + pzv e be ^ 2 + ppv e ga ^ 2)))) /\
+  K2 e dM a al be b
+  = kron a b * (1 / dxidchi e al * (1 / dpzdrz e be) * (1 / sqrt (1 - vwall e ^ 2) / 2) * dM a al).
+Proof. intros. split; [apply K1_explicit_lem|apply K2_explicit_lem]. Qed.
+Print Assumptions liouville_coefficients_explicit.
+
+Theorem solve_is_dense_double_solve_in_C_order :
+  solve_ok solve_steps solve_shape build_flat = true.
+Proof. exact solve_facts_lem. Qed.
+Print Assumptions solve_is_dense_double_solve_in_C_order.
+
+Theorem deltaF_only_used_through_its_basis :
+  duses_ok deltaF_uses = true /\
+  has_poly MgetDeltas deltaF_uses = true /\ has_poly McheckLinearization deltaF_uses = true /\
+  has_poly MestimateTruncationError deltaF_uses = true.
+Proof. exact deltaF_uses_lem. Qed.
+Print Assumptions deltaF_only_used_through_its_basis.
+
+Theorem basis_independence_of_the_solution :
+  forall e dM dT dv Dc DcZ X Y Z (P m n : nat) (Binv : idx -> idx -> R) (x y : idx -> R),
+  (forall r c, In r (U4 P m n) -> In c (U4 P m n) ->
+     lsum (U4 P m n) (fun t => Binv r t * Acard e dM Dc DcZ t c) = dl4 r c) ->
+  (forall r, In r (U4 P m n) -> lmv (U4 P m n) (Acard e dM Dc DcZ) x r = src e dM dT dv r) ->
+  (forall r, In r (U4 P m n) ->
+     lmv (U4 P m n) (Abasis e dM Dc DcZ X Y Z m n) y r = src e dM dT dv r) ->
+  (forall r, In r (U4 P m n) -> x r = lmv (U4 P m n) (Tbasis X Y Z) y r) /\
+  (forall w, lsum (U4 P m n) (fun r => w r * x r)
+             = lsum (U4 P m n) (fun r => w r * lmv (U4 P m n) (Tbasis X Y Z) y r)).
+Proof.
+  intros e dM dT dv Dc DcZ X Y Z P m n Binv x y HB Hx Hy.
+  exact (basis_independence_lem e dM dT dv Dc DcZ X Y Z P m n Binv x y HB Hx Hy).
+Qed.
+Print Assumptions basis_independence_of_the_solution.
+
+Theorem constant_profile_has_zero_derivative :
+  (forall (grid : list R) (c : R), NoDup grid -> grid <> [] ->
+     Lagrange.omatvec Lagrange.ROps
+       (Spectral.cardinalDeriv Lagrange.ROps Spectral.Dz true grid) (map (fun _ => c) grid)
+     = map (fun _ => 0) grid) /\
+  (forall n (D : nat -> nat -> R) c i,
+     rsum n (fun j => D i j) = 0 -> rsum n (fun j => D i j * c) = 0).
+Proof. split; [exact constant_profile_spectral_lem|exact rows_sum_zero_const]. Qed.
+Print Assumptions constant_profile_has_zero_derivative.
+
+Theorem set_background_works_on_a_copy : forall junk f1 f2 caller h,
   f1 <> bg_vel caller -> f2 <> bg_vel caller ->
-  let '(c', s', h') := set_background bg_copy_kind bg_boost_target bg_boost_rebinds f1 f2 caller h in
+  let '(c', s', h') := set_background bg_copy_kind deepcopy_structural junk bg_boost_target
+                                      bg_boost_rebinds f1 f2 caller h in
   bg_observable c' h' = bg_observable caller h /\
   bg_observable s' h' = (PlasmaFrame, PlasmaFrame).
 Proof. exact set_background_lem. Qed.
